@@ -298,6 +298,8 @@ pub fn check(c: &KaCase, st: &mut Stats) -> Result<(), Viol> {
                     _ if t.ends_with(' ') => format!("PING :{}", t),
                     _ => format!("PING {}", t),
                 };
+                // (a client may put its own nick in front as a source: it changes nothing)
+                let form = if clients[ci].my_pings % 5 == 2 { format!(":{} {}", clients[ci].nick, form) } else { form };
                 // every now and then a PING with an empty token first: it is answered (with the
                 // empty token) like any other
                 if clients[ci].my_pings % 5 == 4 {
